@@ -357,16 +357,24 @@ cJSON *set_or_call(const struct peer *p, const cJSON *request, enum type what)
 	char *rendered_message = cJSON_PrintUnformatted(routed_message);
 	if (unlikely(rendered_message == NULL)) {
 		response = create_error_response_from_request(p, request, INTERNAL_ERROR, "reason", "could not render message");
-		goto delete_json;
+		goto routing_failed;
 	}
 
 	if (unlikely(e->peer->send_message(e->peer, rendered_message,
 	                                   strlen(rendered_message)) != 0)) {
 		response = create_error_response_from_request(p, request, INTERNAL_ERROR, "reason", "could not send routing information");
+		cjet_free(rendered_message);
+		goto routing_failed;
 	}
 
 	cjet_free(rendered_message);
 	cJSON_Delete(routed_message);
+	return response;
+
+routing_failed:
+	/* The request is answered right now, it must not be answered again by a timeout or a shutdown. */
+	cJSON_Delete(routed_message);
+	abort_routing_request(e->peer, routing_request);
 	return response;
 
 delete_json:
